@@ -493,6 +493,8 @@ func canonSexp(s zygo.Sexp, depth int) string {
 		return "raw:" + togoCodes(x.Val)
 	case *zygo.SexpTime:
 		return "t:" + canonTime(x.Tm)[5:]
+	case *zygo.SexpPair:
+		return "pair"
 	case *zygo.SexpSentinel:
 		if x == zygo.SexpNull {
 			return "nil"
